@@ -221,6 +221,22 @@ def run_case(sh, s, d, case):
     c.root()['g'] = real[0]
     for k in added:
         c.add(real[k])
+    if random.Random(s + 21).random() < 0.3:
+        # a first attempt fails after everything was serialized (another participant votes no); the same objects are then stored
+        # by a second attempt, under whatever ids they get then: every reference, weak ones included, must lead to them
+        from zv.shadow import FailingRM
+        tm.get().join(FailingRM('tpc_vote', '~~~after'))
+        try:
+            tm.commit()
+            sh.violation('c14:commit-succeeded-although-a-participant-failed', {}, case)
+            return None
+        except RuntimeError:
+            tm.abort()
+        sh.count('graphs_stored_by_a_second_attempt_after_a_failed_commit')
+        tm.begin()
+        c.root()['g'] = real[0]
+        for k in added:
+            c.add(real[k])
     tm.commit()
     sh.count('graphs')
     sh.count('weak_refs_to_new_objects', early_weak)
